@@ -273,6 +273,11 @@ def oracleDecompose (poly : Array (V2 Rat)) (A : Rat) (out : List String) : Stri
       judgePieces poly A tol (slackOf poly) P
   | _ => "fail unparsable-output"
 
+/-- consecutive index triples of a flat index buffer as point triangles -/
+def triplesOf (pq : Array (V2 Rat)) : List Nat → List (List (V2 Rat))
+  | a :: b :: c :: r => [pq.getD a ⟨0,0⟩, pq.getD b ⟨0,0⟩, pq.getD c ⟨0,0⟩] :: triplesOf pq r
+  | _ => []
+
 def handler (fn : String) : Option Handler :=
   match fn with
   | "hertel_mehlhorn_pts" => some {
@@ -308,6 +313,36 @@ def handler (fn : String) : Option Handler :=
           if !(T.all (isConvexCcw 0)) then "skip input-triangle-not-ccw" else
           if !(allDisjoint 0 T) then "skip input-triangles-overlap" else
           oracleDecompose poly ((T.map shoelace2).foldl (· + ·) 0) o
+        | none => "skip bad-args" }
+  | "from_polygon_mesh" => some {
+      model := fun a => run (do let poly ← plist pv2; pend
+                                pure (match fromPolygonMesh poly.toArray with
+                                      | .none => "none"
+                                      | .panicEmptyIndices => "panic"
+                                      | .mesh v f => f.foldl (fun s i => s ++ s!" {i}") ("mesh " ++ fpts v ++ s!" {f.size}"))) a
+      -- independent of the model: the mesh keeps the input vertices bit for bit, the flat buffer has 3(n-2) entries, all
+      -- `< n`, and every consecutive triple is a counter-clockwise triangle; the triples' areas add up to the polygon's
+      oracle := fun a o => match run (plist pv2) a with
+        | some poly =>
+          match o with
+          | "panic" :: _ => "fail panic"
+          | ["none"] => "skip triangulation-none"
+          | "mesh" :: rest =>
+            (match run (do let v ← ppts; let f ← plist pnat; pend; pure (v, f)) rest with
+             | none => "fail unparsable-output"
+             | some (v, f) =>
+               let n := poly.length
+               if v.length ≠ n || !((v.zip poly).all fun (x, y) => x.x.toBits == y.x.toBits && x.y.toBits == y.y.toBits) then
+                 "fail vertex-buffer-changed" else
+               if f.length ≠ 3 * (n - 2) then s!"fail flat-index-count {f.length}" else
+               if f.any (· ≥ n) then "fail index-out-of-range" else
+               let pq := (poly.map q2).toArray
+               let T := triplesOf pq f
+               let sl := slackOf pq
+               if (T.map shoelace2).any (fun s => decide (s ≤ -sl)) then
+                 (if isSimple pq then "fail triangle-not-counter-clockwise" else "skip non-simple-input") else
+               if (T.map shoelace2).foldl (· + ·) 0 ≠ shoelace2 pq.toList then "fail area-not-conserved" else "pass")
+          | _ => "fail unparsable-output"
         | none => "skip bad-args" }
   | "triangulate" => some {
       model := fun a => run (do let poly ← plist pv2; pend
